@@ -6,6 +6,7 @@
     (Sni/RpcCorr.v). *)
 From Coq Require Import List NArith ZArith Bool String Permutation.
 From Verif Require Import Lib.Bytes Sni.Wire Sni.WireProofs Sni.WireGen Gen.WireSchema.
+From Verif Require Import Sni.RpcCtx Sni.RpcCtxProofs.
 From Verif Require Import Sni.SchedSkel Sni.Rpc Sni.RpcProofs Sni.RpcGen Sni.RpcFine Gen.TransportSkel.
 Import ListNotations.
 Local Open Scope N_scope.
@@ -173,6 +174,80 @@ Theorem C03_early_reply_waits : forall c f,
 Proof. exact (early_reply_waits gen_alloc_max two64). Qed.
 Print Assumptions C03_early_reply_waits.
 
+(** ** Contexts that end (Sni/RpcCtx.v: the queue of calls explicit, "the
+    caller gives up" an event that may come at any point of a call's life;
+    what giving up does to the transport is read off the source) *)
+
+(** The source now: [transport.call] and [asyncCall] return on ctx.Done()
+    and do nothing else; only the reader asks serve to look a call up, under
+    the id of the frame; only serve writes the id of an exchange. *)
+Theorem C03_giveup_is_silent :
+  gen_giveup_shape = GuSilent /\
+  gen_ctx_done_arms = [ ("transport.asyncCall", ["0 return ctx.Err()"]);
+                        ("transport.call", ["0 return ctx.Err()"]) ]%string /\
+  gen_pendingFetch_makers = [("transport.handleMessage", "id")]%string /\
+  gen_exchange_id_writers = [("transport.serve", "c.id = id")]%string.
+Proof.
+  exact (conj gen_giveup_silent (conj gen_ctx_done_arms_return_only
+        (conj gen_fetch_only_by_reader gen_id_written_by_serve_only))).
+Qed.
+Print Assumptions C03_giveup_is_silent.
+
+(** When the context of call A ends -- before its exchange is queued, in
+    the queue, after serve has taken, sent and recorded it, after the peer
+    has answered -- the transport does not change: no entry of the table of
+    pending calls (A's own or any other call's), not the id counter, not
+    the queue, not what any call has completed with. *)
+Theorem C03_giveup_changes_nothing : forall s a,
+  x_st (xstep gen_alloc_max two64 gen_giveup_shape s (XGiveUp a)) = x_st s /\
+  x_queue (xstep gen_alloc_max two64 gen_giveup_shape s (XGiveUp a)) = x_queue s /\
+  x_ids (xstep gen_alloc_max two64 gen_giveup_shape s (XGiveUp a)) = x_ids s.
+Proof.
+  exact (eq_ind_r (fun sh => forall s a,
+           x_st (xstep gen_alloc_max two64 sh s (XGiveUp a)) = x_st s /\
+           x_queue (xstep gen_alloc_max two64 sh s (XGiveUp a)) = x_queue s /\
+           x_ids (xstep gen_alloc_max two64 sh s (XGiveUp a)) = x_ids s)
+         (giveup_silent_transport_unchanged gen_alloc_max two64) gen_giveup_silent).
+Qed.
+Print Assumptions C03_giveup_changes_nothing.
+
+(** Every other caller B gets back exactly what it got before ... *)
+Theorem C03_giveup_local : forall s a b,
+  a <> b -> xview (xstep gen_alloc_max two64 GuSilent s (XGiveUp a)) b = xview s b.
+Proof. exact (giveup_silent_local gen_alloc_max two64). Qed.
+Print Assumptions C03_giveup_local.
+
+(** ... and A itself gets ctx.Err(), unless its call had completed already. *)
+Theorem C03_giveup_own : forall s k,
+  (status (x_st s) k = None -> xview (xstep gen_alloc_max two64 GuSilent s (XGiveUp k)) k = VCtx) /\
+  (status (x_st s) k <> None -> xview (xstep gen_alloc_max two64 GuSilent s (XGiveUp k)) k = xview s k).
+Proof. exact (giveup_silent_own gen_alloc_max two64). Qed.
+Print Assumptions C03_giveup_own.
+
+(** For every interleaving of enqueues, takes, replies, losses and give-ups
+    the transport is in the state the model of Sni/Rpc.v computes on the
+    history with the give-ups erased: every theorem above holds for
+    histories in which contexts end anywhere. *)
+Theorem C03_giveups_invisible : forall tr,
+  x_st (xrun gen_alloc_max two64 GuSilent tr) = run (RpcCtx.project [] tr).
+Proof. exact (silent_refines gen_alloc_max two64). Qed.
+Print Assumptions C03_giveups_invisible.
+
+(** The seeded change C03-e, kept as a counter-model: a give-up that asks
+    serve to drop pending[ex.id] with ex.id read from the exchange.  A call
+    whose context ends in the queue still carries id 0 and evicts the first
+    call of the transport: the peer's reply to it is discarded, and nothing
+    that happens afterwards completes it with a reply. *)
+Theorem C03_giveup_stale_id_refuted :
+  status (x_st (xrun gen_alloc_max two64 GuSilent eviction_history)) 10 = Some (ROk [VBytes [65]]) /\
+  xview (xrun gen_alloc_max two64 GuSilent eviction_history) 11 = VCtx /\
+  let s := xrun gen_alloc_max two64 GuFetchField eviction_history in
+  status (x_st s) 10 = None /\ running (x_st s) = true /\ pending (x_st s) = [(1, ctx_hello 11)] /\
+  forall tr, Forall (fun e => ~ enqueues 10 e) tr ->
+    forall vs, status (x_st (xrun_from gen_alloc_max two64 GuFetchField s tr)) 10 <> Some (ROk vs).
+Proof. exact fetch_field_refuted. Qed.
+Print Assumptions C03_giveup_stale_id_refuted.
+
 (** The tie to the source: the functions the model was written against have
     the frozen statement skeletons, [pending] is owned by [serve], the type
     codes are the ones the model uses. *)
@@ -277,3 +352,23 @@ Proof.
   - cbn [good_replies N.add]. eapply perm_trans; [apply perm_swap|].
     eapply perm_trans; [apply perm_skip, perm_swap|]. apply Permutation_refl.
 Qed.
+
+(** Contexts ending at every point of a call's life while the first call of
+    the transport is held by the peer: issued with a finished context and
+    never queued (12), finished context but queued and sent all the same
+    (13), ended in the queue (14), ended while pending (15), ended after the
+    answer (16: no effect).  Call 10 gets its own reply in the end. *)
+Example C03_ex_contexts_end_everywhere :
+  let tr := [ XEnqueue (ctx_hello 10); XTake true;
+              XGiveUp 12;
+              XEnqueue (ctx_hello 13); XGiveUp 13; XTake true;
+              XEnqueue (ctx_hello 14); XGiveUp 14; XTake true;
+              XEnqueue (ctx_hello 15); XTake true; XGiveUp 15;
+              XEnqueue (ctx_hello 16); XTake true; XOther (EReply (ctx_hello_reply 4 [7])); XGiveUp 16;
+              XOther (EReply (ctx_hello_reply 2 [9]));
+              XOther (EReply (ctx_hello_reply 0 [65])) ] in
+  let s := xrun gen_alloc_max two64 gen_giveup_shape tr in
+  map (xview s) [10; 12; 13; 14; 15; 16] =
+    [VResult (ROk [VBytes [65]]); VCtx; VCtx; VCtx; VCtx; VResult (ROk [VBytes [7]])] /\
+  map fst (pending (x_st s)) = [3; 1] /\ panicked (x_st s) = false.
+Proof. vm_compute. repeat split. Qed.
